@@ -63,6 +63,9 @@ Buffered(s) == SubSeq(s.chunk, s.off + 1, Len(s.chunk))
 Obs(s) == <<s.off, Len(s.chunk), IF s.held = <<>> THEN -1 ELSE s.held[1], s.pl, s.pc>>
 
 \* bookkeeping for characters cs handed to the client (ghosts; and the error list in the intended design)
+\* ASSUMED (design choice, the property only demands delivery-independence): in the intended design an
+\* invalid code point is reported when the character is handed to the client for the first time (so the
+\* tokenizer flushes it after the state function that consumed it); re-deliveries after unget do not count.
 Deliver(s, cs) ==
     LET n == Len(cs)
         re == IF s.ug < n THEN s.ug ELSE n                  \* re-deliveries of ungotten characters
@@ -73,6 +76,9 @@ Deliver(s, cs) ==
                  !.il = @ + tp[1], !.ic = IF tp[1] = 0 THEN @ + n ELSE tp[2]]
 
 \* readChunk() given the data the source returned (<<>> = end of source)
+\* ASSUMED: sources return the empty string only at their end (the quantifier says read sizes >= 1).
+\* ASSUMED: withholding a trailing LEAD SURROGATE follows the code in both configurations (on a UCS-4 build
+\* it only moves chunk boundaries; every surrogate code point is an error on its own, pairs are not joined).
 ReadChunk(s, data) ==
     LET p == PosIn(s, Len(s.chunk))
         base == [s EXCEPT !.pl = p[1], !.pc = p[2], !.chunk = <<>>, !.off = 0, !.cr = FALSE]
@@ -124,6 +130,7 @@ Run(s, o, rds) ==
          ELSE Run(r.s, d.o, Tail(rds))
 
 \* unget(c); the client only ungets what it was last given (c = Last(out)) or EOF
+\* ASSUMED (client discipline, true of the tokenizer; Trace_InputStream rejects a trace that breaks it).
 UngetOK(s, c) == c = EOF_CP \/ (s.out # <<>> /\ Last(s.out) = c)
 Unget(s, c) ==
     IF c = EOF_CP THEN s
